@@ -295,7 +295,12 @@ def rule_bp(repo: Repo, rep: Report) -> int:
     if len(loops) != 1:
         rep.undecided("BP-UPDATE", db, "for _ in range(self.bp_iters)", "iteration loop not found")
     else:
+        exits = [x for x in ast.walk(loops[0]) if isinstance(x, (ast.Break, ast.Return))]
+        for x in exits:
+            rep.violation("BP-UPDATE", db, f"`{unparse(x)}` inside the bp_iters loop", "the message-passing schedule is cut short on a data-dependent condition: the returned posterior is the one of fewer iterations (not the exact marginal of a cycle-free graph, which needs the full schedule), and the decision of one word depends on the other words of the batch", node=x)
         body = [s for s in loops[0].body if not (isinstance(s, ast.Expr) and isinstance(s.value, ast.Constant))]
+        if exits:
+            body = body[:3]
         want = [("vc", ["self.compute_vc(cv, messages)"]), ("cv", ["self.compute_cv(vc)"]), ("messages", ["self.marginalize(cv, received_block.view(-1, L))", "self.marginalize(cv, received_block.reshape(-1, L))"])]
         if len(body) == 3 and all(isinstance(s, ast.Assign) and isinstance(s.targets[0], ast.Name) for s in body):
             for s, (tname, acc) in zip(body, want):
